@@ -264,10 +264,12 @@ impl Kademlia {
                                 "connection established to peer but failed to open substream",
                             );
 
-                            if let PeerAction::SendFindNode(query_id) = action {
-                                self.engine.register_send_failure(query_id, peer);
-                                self.engine.register_response_failure(query_id, peer);
-                            }
+                            // Report the failure for every kind of action, as `on_dial_failure()`
+                            // does: a `PUT_VALUE`/`ADD_PROVIDER` tracker would otherwise wait for
+                            // this peer forever and the operation would never terminate.
+                            let query_id = action.query_id();
+                            self.engine.register_send_failure(query_id, peer);
+                            self.engine.register_response_failure(query_id, peer);
                         }
                     }
                 }
